@@ -199,7 +199,7 @@ func oracleC08(x *Exec, so *StepObs) {
 			}
 			seen[q.ID.String()]++
 			out := q.SeqOut
-			if out == 0 {
+			if out == 0 || q.Fault == FStall {
 				out = ^uint64(0) // never answered (stalled, abandoned)
 			}
 			if len(groups) == 0 || groups[len(groups)-1].kind != q.ID.Kind {
